@@ -1,15 +1,16 @@
 ---- MODULE TablesMC ----
 (* Exhaustive (depth-bounded) exploration of operation histories over nested and sibling prefixes.  *)
 EXTENDS Tables
-CONSTANTS MaxDepth, Mode   \* Mode: "rib" | "fib"
+CONSTANTS MaxDepth, Mode, Fan   \* Mode: "rib" | "fib" ; Fan: "full" | "reduced"
 P0 == <<>>  Pa == <<"a">>  Pab == <<"a","b">>  Pabc == <<"a","b","c">>  Pad == <<"a","d">>  Pe == <<"e">>
 RibPfx == { P0, Pa, Pab, Pabc, Pad }          \* includes the gap /a , /a/b/c without /a/b
 FibPfx == { P0, Pa, Pab, Pabc, Pad, Pe }
 Look == FibPfx \cup { <<"a","b","c","d">>, <<"zzz">>, <<"a","x">> }
 Init == /\ routes = {} /\ nh = Empty /\ st = (<<>> :> "best-route") /\ tn = {<<>>} /\ named = {} /\ vmd = Empty
         /\ ev = [op |-> "init"]
-RibNext == \/ \E p \in RibPfx, g \in {1, 2}, o \in {0, 128}, c \in {1, 5}, fl \in 0..3 : Register(p, g, o, c, fl)
-           \/ \E p \in RibPfx, g \in {1, 2}, o \in {0, 128} : Unregister(p, g, o)
+Origins == IF Fan = "full" THEN {0, 128} ELSE {0}
+RibNext == \/ \E p \in RibPfx, g \in {1, 2}, o \in Origins, c \in {1, 5}, fl \in 0..3 : Register(p, g, o, c, fl)
+           \/ \E p \in RibPfx, g \in {1, 2}, o \in Origins : Unregister(p, g, o)
            \/ \E g \in {1, 2} : Cleanup(g)
 FibNext == \/ \E p \in FibPfx, g \in {1, 2}, c \in {1, 5} : Ins(p, g, c)
            \/ \E p \in FibPfx, g \in {1, 2} : Rem(p, g)
